@@ -110,7 +110,7 @@ def gen_frontend(outdir):
 class Job:
     def __init__(self, name, sources, harness, enforce=None, replace=(), loop_contracts=False,
                  cbmc_args=(), defines=(), includes=(), timeout=600, mem_gb=8, kind='proof',
-                 expect='pass', backend='sat', inputs=(), note='', unwind=None, function_desc=None):
+                 expect='pass', backend='sat', inputs=(), note='', unwind=None, function_desc=None, input_fns=()):
         self.name = name
         self.sources = list(sources)
         self.harness = harness
@@ -129,6 +129,7 @@ class Job:
         self.note = note
         self.unwind = unwind
         self.function_desc = function_desc
+        self.input_fns = list(input_fns)   # extra functions whose local assignments count as inputs
 
 
 BACKENDS = {
@@ -248,7 +249,7 @@ def run_job(job, workdir):
             r.n_fail += 1
             r.failed.append(ob)
             if not r.cex and p.get('trace'):
-                r.cex = trace_inputs(p['trace'], job.inputs, job.harness)
+                r.cex = trace_inputs(p['trace'], job.inputs, [job.harness] + job.input_fns)
         else:
             r.n_err += 1
     if ignoring:
@@ -288,7 +289,7 @@ def trace_inputs(trace, names, harness=None):
         if st.get('stepType') != 'assignment':
             continue
         fn = (st.get('sourceLocation') or {}).get('function')
-        if harness is not None and fn is not None and fn != harness:
+        if harness is not None and fn is not None and fn not in (harness if isinstance(harness, list) else [harness]):
             continue
         lhs = st.get('lhs', '')
         if lhs in names or any(n.endswith('*') and lhs.startswith(n[:-1]) for n in names):
